@@ -65,6 +65,26 @@ def gen(rng, tier, index):
     ops[pos:pos] = edge
     ops.append(["restart"])
     ops.extend(netgen.make_ops(rng, cfg["version"], rng.randint(2, 8), WEIGHTS, nodes=(1, 2)))
+    if cfg.get("roundtrip_view") and rng.random() < 0.6:
+        # the last accepted update before the stop is one of the rarer kinds (the file must still hold it): a value from a node
+        # that has a reboot request pending, a known child presented again with another description, a battery report
+        kids = []
+        for op in ops:
+            if op[0] == "line":
+                f = tables.parse_canonical(op[1])
+                if f is not None and f[2] == 0 and f[1] != 255 and 0 < f[0] < 255 and tables.valid_frame(cfg["version"], *f) is True:
+                    kids.append((f[0], f[1], f[4]))
+        if kids:
+            nid, cid, sub = rng.choice(kids)
+            ops.append(["advance", 10.3])
+            what = rng.randrange(3)
+            if what == 0:
+                ops.append(["fw", [nid], 10, 1, bytes(rng.randrange(256) for _ in range(32)).hex(), "bin"])
+                ops.append(["line", f"{nid};{cid};1;0;24;v{rng.randrange(1000)}"])
+            elif what == 1:
+                ops.append(["line", f"{nid};{cid};0;0;{sub};Température extérieure {rng.randrange(100)}"])
+            else:
+                ops.append(["line", f"{nid};255;3;0;0;{rng.randrange(101)}"])
     if rng.random() < 0.25:
         # the network keeps talking while the gateway stops: a presentation arrives at the moment the final save has been
         # written - if the gateway still accepts it then, it is part of the state it stopped with
